@@ -99,4 +99,35 @@ theorem C04_no_panic_fails :
   intro h
   exact h [] quiet bReceived [.serr] [] _ ⟨2, rfl⟩ (by decide)
 
+/-! ### non-vacuity -/
+
+def fV : Feature := ⟨0, ⟨2, 1⟩, 0, 0, true⟩
+
+/-- a voluntary feature whose `Negotiate` fails (the witness of the swallowed error) -/
+def errO : Oracle := { quiet with neg := fun _ _ _ => ⟨0, false, true⟩ }
+
+def swallowed : Conf := run [fV] errO 30 (init 0 [.hdr true, .adv [.feat ⟨2, 1⟩ false]] [⟨2, 1⟩])
+
+example : swallowed.pc = .fail .cb := by decide
+-- hypothesis of `C04_fail_closed`: a failed step in the trace
+example : Ev.neg fV 0 false false false ⟨0, false, true⟩ ∈ swallowed.tr := by decide
+example : (Ev.neg fV 0 false false false ⟨0, false, true⟩).faulty = true := by decide
+
+/-- the third I/O operation (reading the features list) fails -/
+def cut : Conf :=
+  run [fV] { quiet with fault := fun k => k == 2 } 30 (init 0 [.hdr true, .adv [.feat ⟨2, 1⟩ false]] [⟨2, 1⟩])
+
+example : cut.pc = .fail .io ∧ cut.tr = [.rd .list .fault, .rd .hdr .got, .hdrOut true] := by decide
+
+/-- the context is cancelled inside the last callback: nothing is read or written afterwards,
+the check after the negotiator call reports it -/
+def cancelled : Conf :=
+  run [fV] { quiet with cancel := fun tr => decide (4 ≤ tr.length) } 30
+    (init 0 [.hdr true, .adv [.feat ⟨2, 1⟩ false]] [⟨2, 1⟩])
+
+example : cancelled.pc = .fail .io := by decide
+-- … and without the cancellation the same run is reported established (`C04_nil_only_if_clean`)
+example : (run [fV] quiet 30 (init 0 [.hdr true, .adv [.feat ⟨2, 1⟩ false]] [⟨2, 1⟩])).pc = .done := by
+  decide
+
 end XmppModel.Props.C04
